@@ -78,15 +78,10 @@ public:
     using std::sqrt, std::sin, std::cos;
     const Scalar th2 = a_in.squaredNorm();
 
-    const auto A = [&]() -> Scalar {
-      if (th2 < Scalar(eps2)) {
-        // https://www.wolframalpha.com/input/?i=series+1%2Fx%5E2-%281%2Bcos+x%29%2F%282*x*sin+x%29+at+x%3D0
-        return Scalar(1) / Scalar(12) + th2 / Scalar(720);
-      } else {
-        const Scalar th = sqrt(th2);
-        return Scalar(1) / th2 - (Scalar(1) + cos(th)) / (Scalar(2) * th * sin(th));
-      }
-    }();
+    // coefficient 1/th^2 - (1 + cos th) / (2 th sin th) from the Taylor tails: the closed form loses
+    // eps / th^2 to cancellation just above the former switch at th^2 = 1e-8
+    const Scalar A = detail::dexpinv_coefs<Scalar>(th2)[0];
+
     Eigen::Matrix3<Scalar> M;
     hat(a_in, M);
 
